@@ -257,6 +257,37 @@ def feasible(fn, facts):
     return True
 
 
+def flag_feasible(fn, seq):
+    """replay a path (enum_paths_seq sequence) against the function's flag locals (locals that only ever hold literal
+    constants): False when a branch taken on a flag contradicts the constant it holds at that point; also False when two
+    `==` facts bind one never-written key to different constants"""
+    from . import guards as G
+    flags = getattr(fn, '_flags', None)
+    if flags is None:
+        flags = fn._flags = set(G.flag_locals(fn))
+    cur = {}
+    eqs = {}
+    written = stable_keys(fn)
+    for x in seq:
+        if x[0] == 'stmt':
+            for a in nodes(x[3], lambda y: y.get('k') == 'assign' and y['op'] == '=' and strip(y['l']).get('k') == 'var' and strip(y['l'])['name'] in flags and is_lit(strip(y['r']))):
+                cur[strip(a['l'])['name']] = strip(a['r'])['v']
+            for d in nodes(x[3], lambda y: y.get('k') == 'decl'):
+                for v in d['vars']:
+                    if v['name'] in flags and 'init' in v and is_lit(strip(v['init'])):
+                        cur[v['name']] = strip(v['init'])['v']
+        else:
+            l, op, r = x[1]
+            if l in cur and op in ('==', '!=') and (r == '0' or r.lstrip('-').isdigit()):
+                if (cur[l] == int(r)) != (op == '=='):
+                    return False
+            if op == '==' and l not in written and '(' not in l:
+                if l in eqs and eqs[l] != r and (r.lstrip('-').isdigit() or r.isupper()) and (eqs[l].lstrip('-').isdigit() or eqs[l].isupper()):
+                    return False
+                eqs.setdefault(l, r)
+    return True
+
+
 def local_init_from(fn, pred):
     """name of the local whose declaration (or single assignment) is initialised by an expression satisfying pred(stripped expr)"""
     for b, i, st in fn.stmts():
